@@ -11,7 +11,7 @@ BOUNDS = {
     "quick": "vertex trees: every polyline on <=4 vertices (incl. disconnected), the 2-triangle surface, one tetrahedron; every "
              "root, every excluded-edge subset, avoid_boundary on/off, BFS and DFS traversal. MST: polylines on <=4 vertices and "
              "the 2-triangle surface with arbitrary real weights, 'one' and 'length' (collinear coordinates). Face trees: 2-3 "
-             "triangle surfaces and two disjoint triangles, every forbidden-edge subset. Cell trees: two tetrahedra, two disjoint "
+             "triangle surfaces, two disjoint triangles and two quads sharing two sides (+ a triangle), every forbidden-edge subset. Cell trees: two tetrahedra, two disjoint "
              "tetrahedra, every forbidden-face subset of the shared faces. Forests on the same meshes.",
     "thorough": "adds polylines on 5 vertices, a 4-triangle closed fan, a 3-tetrahedron chain, MST on one tetrahedron (6 edges)",
 }
@@ -27,7 +27,9 @@ COVERS = ["mouette.processing.trees.edge_sp:EdgeSpanningTree.compute", "mouette.
 
 SURF = {"tri2": (4, [(0, 1, 2), (0, 2, 3)]), "tri3": (5, [(0, 1, 2), (0, 2, 3), (0, 3, 4)]),
         "fan4": (5, [(0, 1, 2), (0, 2, 3), (0, 3, 4), (0, 4, 1)]), "tri1+1": (6, [(0, 1, 2), (3, 4, 5)]),
-        "strip3": (5, [(0, 1, 2), (2, 1, 3), (2, 3, 4)])}
+        "strip3": (5, [(0, 1, 2), (2, 1, 3), (2, 3, 4)]),
+        # two quads sharing TWO sides (around the interior valence-2 vertex 1) and a triangle glued to the first quad
+        "quad2v+1": (6, [(0, 1, 2, 3), (2, 1, 0, 4), (3, 2, 5)])}
 VOL = {"tet1": (4, [(0, 1, 2, 3)]), "tet2": (5, [(0, 1, 2, 3), (1, 2, 3, 4)]), "tet1+1": (8, [(0, 1, 2, 3), (4, 5, 6, 7)]),
        "tet3": (6, [(0, 1, 2, 3), (1, 2, 3, 4), (2, 3, 4, 5)])}
 
@@ -328,7 +330,7 @@ def obligations(tier):
     obs.append(Ob("mst-tri2", mst("tri2", modes=(0, 1) if q else (0, 1, 2)), covers=COVERS, split=6, note="MST on the 2-triangle surface"))
     if not q:
         obs.append(Ob("mst-tet1", mst("tet1", modes=(0,)), covers=COVERS, split=8, required=False, note="MST on one tetrahedron"))
-    for k in (["tri2", "tri3", "tri1+1"] if q else ["tri2", "tri3", "strip3", "fan4", "tri1+1"]):
+    for k in (["tri2", "tri3", "tri1+1", "quad2v+1"] if q else ["tri2", "tri3", "strip3", "fan4", "tri1+1", "quad2v+1"]):
         obs.append(Ob("ftree-" + k, face_tree(k), covers=COVERS, split=5, note="face spanning tree on " + k))
         obs.append(Ob("fforest-" + k, forest("face", k), covers=COVERS, split=5, note="face spanning forest on " + k))
     for k in (["tet2", "tet1+1"] if q else ["tet2", "tet3", "tet1+1"]):
